@@ -89,6 +89,7 @@ class Registry:
         self.pure_ext = set()       # external callables modelled as uninterpreted *functions* of their arguments
         self.no_raise_ext = set()   # pure externals additionally assumed never to raise (listed in the evidence)
         self.prop_meta = {}         # property id -> dict(bounded=[...], bounded_in_quick=str, not_decided=[...], assumptions=[...], trusted=[...])
+        self.file_lemmas = {}       # property id -> [path of an SMT-LIB lemma file discharged by cvc5]
         self.extra_checks = {}      # property id -> [callable(engine, pid) -> [VC]]
         self.externals = {}     # dotted name -> model callable(engine, st, args, kwargs, node) -> outcomes / SV
 
